@@ -314,6 +314,12 @@ func checkC04(p *Prog, r *Report) {
 	r.Floor("R4", "reflective mutators applied by the engine", len(seenMut), 2)
 	c04FlagRetention(p, o, r)
 	engineFailureRule(p, r, "R9")
+	r.Rule("R6", "every per-type UpdateList assigns the merged list to the stored object only under success && persist and returns the engine's outcome (sibling template C02-R1): a rejected remote write is never persisted")
+	tb := BuildTables(p)
+	for _, nt := range tb.Updaters {
+		updateListTemplate(p, r, "R6", nt)
+	}
+	r.Floor("R6", "Updater implementations", len(tb.Updaters), 80)
 
 	// R5
 	t := BuildTables(p)
